@@ -330,6 +330,15 @@ func intrRegexpFindStringSubmatch(ex *Exec, fn *ssa.Function, a []Value, fr *Fra
 	for q := n; q >= 0; q-- {
 		glen = tb.Ite(tb.Eq(gstart, ex.i64(int64(q))), run[q], glen)
 	}
+	// fork on the match position and the length of the captured run: every later step
+	// (strconv.Atoi, comparisons) then works on concrete lengths
+	start = ex.i64(int64(ex.concInt(start, "regexp match position")))
+	gstart = tb.Add(start, ex.i64(int64(L)))
+	glen = ex.i64(0)
+	for q := n; q >= 0; q-- {
+		glen = tb.Ite(tb.Eq(gstart, ex.i64(int64(q))), run[q], glen)
+	}
+	glen = ex.i64(int64(ex.concInt(glen, "regexp capture length")))
 	whole := &StringV{Arr: s.Arr, Off: tb.Add(s.Off, start), Len: tb.Add(ex.i64(int64(L)), glen)}
 	group := &StringV{Arr: s.Arr, Off: tb.Add(s.Off, gstart), Len: glen}
 	return ex.makeStringSlice([]*StringV{whole, group})
